@@ -82,21 +82,6 @@ def special(v, d, drv, seed, modes=SPECIAL, reps=1):
         else:
             if not e.get("prompt") or e.get("connect", "ok") != "ok":
                 v.classify(dict(tag="C17-pool-stop-hangs"), "schedule %s: stopping the collector pool did not return within 2 s (connect=%s)" % (m, e.get("connect")), rp)
-    if tier == "thorough":
-        # the same behaviours on a race-detector build: informational (C17 does not speak of data races)
-        race = vlib.build("fractaldrv", race=True)
-        part = scen[:300]
-        json.dump(part, open(sf, "w"))
-        if os.path.exists(tf + ".races"):
-            os.remove(tf + ".races")
-        vlib.run_driver(race, sf, tf, ["-workers", str(min(vlib.NCPU, 8)), "-stall", "120"], timeout=2400)
-        sites = []
-        if os.path.exists(tf + ".races"):
-            import walletconc
-            sites = walletconc.race_sites(open(tf + ".races").read(), "fractal")
-        v.cov["race_sites_fractal"] = [list(x) for x in sites]
-        for st in sites:
-            log("NOTE race detector (fractal): %s" % (st,))
     v.cov["evaluations"] += len(scen)
     v.cov["samples"].append(["fixed schedules: " + ", ".join(modes)])
 
@@ -145,12 +130,44 @@ def run(prop, tier, seed):
         total += len(validate(v, d, part, traces))
         if lo == 0 and traces:
             v.cov["samples"].append([desc(e) for e in traces[0]["ev"]])
+    if tier == "thorough":
+        # the same behaviours on a race-detector build: informational (C17 does not speak of data races)
+        race = vlib.build("fractaldrv", race=True)
+        part = scen[:300]
+        json.dump(part, open(sf, "w"))
+        if os.path.exists(tf + ".races"):
+            os.remove(tf + ".races")
+        vlib.run_driver(race, sf, tf, ["-workers", str(min(vlib.NCPU, 8)), "-stall", "120"], timeout=2400)
+        sites = []
+        if os.path.exists(tf + ".races"):
+            import walletconc
+            sites = walletconc.race_sites(open(tf + ".races").read(), "fractal")
+        v.cov["race_sites_fractal"] = [list(x) for x in sites]
+        for st in sites:
+            log("NOTE race detector (fractal): %s" % (st,))
+    # M6: link outages of relays that stay up (each recovery waits for the relay's 30 s retry interval, so these are few)
+    nout = 12 if tier == "quick" else 84
+    ob, w = vlib.tlc_generate(d, "FractalGen.tla", "FractalGenOut.cfg", nout * 3, 28, seed + 977)
+    ob = [b for b in vlib.dedup(ob) if any(x["a"] == "Outage" for x in b)]
+    ob.sort(key=lambda b: -sum(1 for x in b if x["a"] in ("Recover", "Outage")))
+    oscen = [dict(sc=len(scen) + i + 1, seed=seed * 100003 + 50000 + i, steps=b, opt=dict(home=HOME, rhome=RHOME)) for i, b in enumerate(ob[:nout])]
+    if oscen:
+        json.dump(oscen, open(sf, "w"))
+        out, w = vlib.run_driver(drv, sf, tf, ["-workers", str(min(vlib.NCPU, 14, len(oscen))), "-stall", "90"], timeout=2400)
+        traces = vlib.read_traces(tf)
+        log("driver (outages): %d scenarios in %.1fs" % (len(oscen), w))
+        total += len(validate(v, d, oscen, traces))
+        v.cov["outage_scenarios"] = len(oscen)
+        v.cov["outage_recoveries"] = sum(1 for t in traces for e in t["ev"] if e.get("a") == "Recover" and e.get("res") == "ok")
+        v.cov["reports_lost_over_broken_links"] = sum(1 for t in traces for e in t["ev"] if e.get("res") == "lost")
+        scen = scen + oscen
     v.cov["evaluations"] += len(scen)
     v.cov["distinct_nontrivial"] = sum(1 for s in scen if any(x["a"] == "Report" and len(x["ps"]) > 1 for x in s["steps"]) and any(x["a"] == "Connect" for x in s["steps"]))
     v.cov["traces_accepted"] = total
     v.cov["rule"] = ("behaviours of 24 public calls obtained by simulating Fractal.tla in TLC (seeded): subscribe / unsubscribe of 5 leaf collectors (2 at the superior, "
                      "3 behind 2 relays), relay connect / disconnect over loopback TCP, broadcast and targeted tasks, report bursts of 1-3 distinct payloads (also to unknown "
-                     "and removed tasks), waiter reads, task removal; plus fixed schedules with parked goroutines (full channel then removal, subscribe during broadcast, "
+                     "and removed tasks), waiter reads, task removal; behaviours of 28 calls with up to two link outages of relays that stay up and dial again (reports from below are lost "
+                     "meanwhile, the current task is handed over again on recovery); plus fixed schedules with parked goroutines (full channel then removal, subscribe during broadcast, "
                      "pool stop); non-trivial = has a relay and a multi-report burst")
     v.assumptions = ["collectors are scripted (the fractal.Collector interface); LocalCollector's slot loop is not run",
                      "steps are issued one at a time and the pipelines are drained between steps (marker reports, relay probes); only the fixed schedules overlap calls",
